@@ -536,6 +536,7 @@ func checkC10(c *Ctx) {
 		}
 	}
 	checkC10TailReadable(c)
+	checkC10Round4(c)
 }
 
 // reachesBefore: a is executed on some path before b (weaker than dominance; used with dependence checks).
